@@ -239,7 +239,8 @@ def make_contained(prog, op, variant='single'):
                 must_report = harmful and (not quick or not content_only)
                 # deleting a hunk of a band that has no tail leaves exactly the state of an earlier interruption: legal, undetectable
                 bnum = int(path[1:5]) if path.startswith('b') else None
-                if role == 'hunk' and how == 'delete' and bnum is not None and (A.band_name(bnum) + '/BANDTAIL') not in st.nodes:
+                if role == 'hunk' and bnum is not None and (A.band_name(bnum) + '/BANDTAIL') not in st.nodes and \
+                        (how == 'delete' or (how == 'empty' and is_last_hunk(st, path))):
                     must_report = False
                 if must_report and r.variant == 0 and not errs:
                     out['problems'].append('validate (%s) reports nothing although %s was %s and versions %s no longer restore as before'
@@ -255,7 +256,9 @@ def make_contained(prog, op, variant='single'):
                 out['result'] = 'Ok' if r.variant == 0 else 'Err:' + variant_name(ex, r.fields[0])
                 out['errors'] = errs[:4]
                 bnum = int(path[1:5]) if path.startswith('b') else None
-                legal_state = role == 'hunk' and how == 'delete' and bnum is not None and (A.band_name(bnum) + '/BANDTAIL') not in st.nodes
+                # deleting a hunk, or emptying the last hunk, of a band without a tail is exactly what an interrupted backup leaves
+                legal_state = role == 'hunk' and bnum is not None and (A.band_name(bnum) + '/BANDTAIL') not in st.nodes and \
+                    (how == 'delete' or (how == 'empty' and is_last_hunk(st, path)))
                 # a band whose head is gone is no longer a version; what other versions stitched through it is outside the claim
                 foreign_head = role == 'head' and bnum != b
                 if r.variant == 0 and isinstance(before[b], list) and not tail_removed and not legal_state and not foreign_head:
@@ -312,6 +315,12 @@ def make_contained(prog, op, variant='single'):
                 res['samples'].append({'op': op, 'outcome': {k: v for k, v in out.items() if k != 'problems'}})
         return h, on_path, res
     return mk_
+
+
+def is_last_hunk(st, path):
+    d = path.rsplit('/', 2)[0]
+    others = [p for p in st.nodes if p.startswith(d + '/') and p.count('/') == path.count('/') and st.nodes[p].kind == 'file']
+    return path == max(others + [path])
 
 
 def BCrole(p):
